@@ -57,6 +57,8 @@ def strategy_(draw, tier):
                 'emit': draw(st.booleans()), 'kind': kind}
         if kind == 'q':
             leaf['unit'], leaf['upd_unit'] = draw(st.sampled_from(UNIT_PAIRS))
+            # initial state given in the *other* compatible unit
+            leaf['init'] = draw(st.sampled_from([None, 3, 2500]))
         leaves.append(leaf)
     overrides = []
     for _ in range(draw(st.integers(0, 3))):
@@ -172,6 +174,14 @@ def run_flags_once(spec, emit_step):
         ss = store_schema_of(spec)
         if ss:
             kwargs['store_schema'] = ss
+        init = {}
+        for leaf in spec['leaves']:
+            if leaf['kind'] == 'q' and leaf.get('init') is not None:
+                from vivarium.library.units import units
+                put(init, ['data'] + leaf['path'],
+                    leaf['init'] * units(leaf['upd_unit']).units)
+        if init:
+            kwargs['initial_state'] = init
         engine = Engine(**kwargs)
         ctx.engine = engine
         kit.fill_initial_snapshots(ctx, engine)
